@@ -16,7 +16,9 @@ SCENARIOS = [
     ("touch_genes_revise", [("run", True, True), ("touchG",)], (False, True)),
     ("move_genes_plain", [("run", False, False), ("editG", 1)], (False, False)),       # same gene names: a stale overlap file would be accepted by the merge
     ("move_TEs_revise", [("run", False, False), ("editT", 1)], (False, True)),
+    ("fresh_directory_single_process", [], (False, False)),      # the same command with --single_process: the stages run in the main process
 ]
+EXTRA_FLAGS = {"fresh_directory_single_process": ["--single_process"]}
 
 
 def clone(w, dst=None):
@@ -62,6 +64,10 @@ def points_from_ops(ops, mode, tier, r):
         if e["kind"] == "csvlen":
             lens[e["base"]] = e["len"]
             rows[e["base"]] = e.get("rows", [])
+        elif e["kind"] == "fwlen":
+            lens["fw:" + e["base"]] = e["len"]
+        elif e["kind"] == "fwrite" and mode == "fault":
+            by.setdefault((e["kind"], e["base"]), []).append(e["n"])
         elif e["kind"] in ("csv", "replace", "h5create", "h5ds", "h5set", "h5flush", "h5close", "ovgene", "mergesum"):
             by.setdefault((e["kind"], e["base"]), []).append(e["n"])
     pts = []
@@ -77,6 +83,16 @@ def points_from_ops(ops, mode, tier, r):
                 offs += list(range(0, ln + 1, max(1, ln // 40)))
             pts.append({"target": {"kind": kind, "base": base, "n": 0}, "nocreate": True, "byte": 0})
             for b in sorted(set(offs)):
+                pts.append({"target": {"kind": kind, "base": base, "n": 0}, "byte": b})
+        elif kind == "fwrite":
+            # a full device after b bytes of the raw file: inside the last buffered block (only the flush at close sees it),
+            # at a block boundary, early
+            ln = lens.get("fw:" + base, 0)
+            blk = 8192
+            offs = {0, ln // 2, max(0, ln - 1), max(0, ln - 40), (ln // blk) * blk, max(0, (ln // blk) * blk - 1), min(ln, (ln // blk) * blk + 1)}
+            if full:
+                offs |= set(range(0, ln + 1, max(1, ln // 12)))
+            for b in sorted(offs):
                 pts.append({"target": {"kind": kind, "base": base, "n": 0}, "byte": b})
         elif kind == "replace":
             for v in (["before", "after"] if mode == "crash" else ["before"]):
@@ -186,7 +202,8 @@ def run_family(chk, mode, props_file, rule):
     quick = chk.tier == "quick"
     nworlds = 2 if quick else 3
     per_scen = 22 if quick else 300
-    scen_idx = {0: [0, 1, 2, 6, 9], 1: [3, 4, 5, 7, 8]} if quick else {i: list(range(len(SCENARIOS))) for i in range(nworlds)}
+    per_big = 24 if quick else 120
+    scen_idx = {0: [0, 1, 2, 6, 9, 10], 1: [3, 4, 5, 7, 8]} if quick else {i: list(range(len(SCENARIOS))) for i in range(nworlds)}
     if quick and not built:
         # a proof obligation or the translated cache decisions no longer check: widen the search for a failing crash point
         chk.notes.append("obligations broken: every scenario in both worlds, 60 points per scenario")
@@ -194,24 +211,37 @@ def run_family(chk, mode, props_file, rule):
         scen_idx = {i: list(range(len(SCENARIOS))) for i in range(nworlds)}
     jobs, scen_recs, worlds = [], [], []
     try:
-        for wi in range(nworlds):
-            case = gen.gen_pair(r, max_chrom=2, max_genes=3, max_tes=9, min_chrom=1 + (wi % 2))
-            base = cachefam.World(case, r)
+        for wi in range(nworlds + 1):
+            big = wi == nworlds
+            if big:
+                # a world whose cached intermediates are larger than the buffer of a buffered writer: a file renamed before its
+                # last block is flushed is then cut, not empty
+                case = gen.gen_big_files(r)
+                base = cachefam.World(case, versions=([case["genes"]], [case["tes"]], [tuple(case["windows"])]))
+            else:
+                case = gen.gen_pair(r, max_chrom=2, max_genes=3, max_tes=9, min_chrom=1 + (wi % 2))
+                base = cachefam.World(case, r)
             worlds.append(base)
             base.all_refs()
             bad = [k for k, v in base.refs.items() if v["rc"] != 0]
             if bad:
                 chk.oblige("reference runs in fresh directories succeed", False, base.refs[bad[0]]["log"][-500:])
                 continue
-            for si in scen_idx[wi % len(scen_idx)]:
+            for si in ([0] if big else scen_idx[wi % len(scen_idx)]):
                 name, hist, flags = SCENARIOS[si]
+                if big:
+                    name = "big_files_" + name
                 sw = build_scenario(base, hist)
+                sw.extra_flags = EXTRA_FLAGS.get(SCENARIOS[si][0], [])
                 worlds.append(sw)
                 sw._pre = sw.abstract()
                 sw._raw = raw_contents(sw)
                 ref = reference(sw, flags)
                 pts = points_from_ops(ref["ops"], mode, chk.tier, r)
-                if len(pts) > per_scen:
+                if big:
+                    keep_kinds = ("replace", "csv", "fwrite")
+                    pts = [p for p in pts if p["target"]["kind"] in keep_kinds]
+                if len(pts) > (per_big if big else per_scen):
                     # keep every kind represented: round-robin over kinds
                     bykind = {}
                     for p in pts:
@@ -219,9 +249,10 @@ def run_family(chk, mode, props_file, rule):
                     for l in bykind.values():
                         r.shuffle(l)
                     pick = bykind.pop("replace", [])       # every rename: these are the boundaries between the crash states
-                    while len(pick) < per_scen and any(bykind.values()):
-                        for k in ["csv"] + sorted(bykind):      # text caches get a double share
-                            if bykind.get(k) and len(pick) < per_scen:
+                    lim = per_big if big else per_scen
+                    while len(pick) < lim and any(bykind.values()):
+                        for k in ["csv", "fwrite"] + sorted(bykind):      # text caches get a double share
+                            if bykind.get(k) and len(pick) < lim:
                                 pick.append(bykind[k].pop())
                     pts = pick
                 sr = {"name": name, "hist": hist, "flags": flags, "world": sw, "ref": ref, "case": case, "base": base, "points": []}
@@ -309,7 +340,7 @@ def run_family(chk, mode, props_file, rule):
                     if nviol <= 3:
                         chk.violation("%s: %s" % ("interrupted run" if mode == "crash" else "failed run", fails[0]["kind"]),
                                       {"case": sr["case"], "versions": sr["base"].versions(), "scenario": sr["name"], "history": sr["hist"],
-                                       "flags": sr["flags"], "points": rec["specs"], "failures": fails,
+                                       "flags": sr["flags"], "extra_flags": getattr(sr["world"], "extra_flags", []), "points": rec["specs"], "failures": fails,
                                        "left_behind": rec["state_after"], "rerun_exit": rec["rerun_rc"], "rerun_log": rec["rerun_log"][-400:]})
         chk.oblige("writers are atomic: after every interruption each final-named intermediate is its old or its complete new content (%d not)" % n_atomic_bad,
                    n_atomic_bad == 0, json.dumps(first.get("atomic"), default=str)[:2500])
@@ -332,6 +363,7 @@ def replay_family(chk, rp, mode):
     w0 = cachefam.World(rp["case"], versions=rp["versions"])
     try:
         sw = build_scenario(w0, [tuple(o) for o in rp["history"]])
+        sw.extra_flags = rp.get("extra_flags", [])
         try:
             sw._pre = sw.abstract()
             flags = tuple(rp["flags"])
